@@ -15,8 +15,100 @@ EXPLANATION = ("Theorems resolve_valid (accepted => every rule of the data model
                "agreement of accept/reject on every mutant in every route.")
 
 
+def defaults_sweep(ctx):
+    """every field of every defaults table x every listed value, unused (no item relies on it) —
+    'invalid defaults even when unused'; small and exhaustive over gen_mutations' table"""
+    import gen_mutations as GM
+    docs = []
+    table = {
+        "deme": [("start_time", [-1, 0, "Infinity", math.inf, math.nan, 8, -math.inf]), ("ancestors", [["1x"], "A", [1], [], ["A"]]),
+                 ("proportions", [[0], [1.5], [0.5, 0.5], ["a"], [], [1], [0.6, 0.6]]), ("description", [1, None, "d"]), ("zzz", [1])],
+        "migration": [("rate", [-0.5, 2, "x", 0.25, 0, 1, math.nan]), ("start_time", [-1, math.inf, 0, math.nan]), ("end_time", [math.inf, -1, 0]),
+                      ("source", ["1x", 3, "A"]), ("dest", ["1x", "A"]), ("demes", [["1x"], "AB", [], ["A", "B"]]), ("zzz", [1])],
+        "pulse": [("time", [0, math.inf, -1, 8, math.nan]), ("proportions", [[], [0.6, 0.6], [0], [0.5], [1], [1, 2 ** -40], [0.5, 0.5], [1.5]]),
+                  ("sources", [[], ["1x"], "A", ["A"]]), ("dest", ["1x", 1, "A"]), ("zzz", [1])],
+        "epoch": [("end_time", [math.inf, -1, "0", 0]), ("start_size", [0, math.inf, -5, 100]), ("end_size", [0, 100, math.inf]),
+                  ("selfing_rate", [1.5, -0.1, 0.5, 0, 1]), ("cloning_rate", [2, 0.5, -1]), ("size_function", [1, None, "linear", "bogus"]), ("zzz", [1])],
+    }
+    base = {"time_units": "generations", "demes": [
+        {"name": "A", "description": "", "start_time": math.inf, "ancestors": [], "proportions": [],
+         "epochs": [{"end_time": 0, "start_size": 100, "end_size": 100, "size_function": "constant", "selfing_rate": 0, "cloning_rate": 0}]},
+        {"name": "B", "description": "", "start_time": math.inf, "ancestors": [], "proportions": [],
+         "epochs": [{"end_time": 0, "start_size": 100, "end_size": 100, "size_function": "constant", "selfing_rate": 0, "cloning_rate": 0}]}]}
+    for sec, rows in table.items():
+        for k, vals in rows:
+            for v in vals:
+                d = copy.deepcopy(base)
+                d["defaults"] = {sec: {k: v}}
+                docs.append((d, f"defaults_sweep:{sec}.{k}"))
+                d2 = copy.deepcopy(base)
+                d2["demes"][0].setdefault("defaults", {})
+                if sec == "epoch":
+                    d2["demes"][0]["defaults"] = {"epoch": {k: v}}
+                    docs.append((d2, f"defaults_sweep:deme.epoch.{k}"))
+    reps = model_resolve(ctx, [d for d, _ in docs])
+    for (d, t), rep in zip(docs, reps):
+        code = impl.resolve(d)
+        ctx.count(show(canon_doc(d)), True, tags=[t.split(".")[0], "accepted" if code[0] == "ok" else "rejected:" + code[1]])
+        compare_with_model(ctx, d, code, rep)
+        ok = spec_defaults_ok(d)
+        if code[0] == "ok" and not ok:
+            ctx.violation("a document with an invalid (unused) default is resolved: " + t.split(":")[1], {"document": show(canon_doc(d))},
+                          python=py_repro(d, "g"))
+        if code[0] != "ok" and ok:
+            ctx.violation("a valid document with a valid unused default is rejected: " + t.split(":")[1], {"document": show(canon_doc(d))})
+
+
+def _num(v):
+    return isinstance(v, (int, float)) and not isinstance(v, bool) and not (isinstance(v, float) and math.isnan(v))
+
+
+def _ident(v):
+    return isinstance(v, str) and v.isidentifier()
+
+
+def spec_defaults_ok(doc):
+    """the specification's rules for the defaults sections, written independently of the library
+    (bool in a numeric position is not generated here)"""
+    def names(v, nonempty=False):
+        return isinstance(v, list) and all(_ident(x) for x in v) and (len(v) > 0 or not nonempty)
+
+    def props(v, nonempty=False, sum_le_one=False):
+        return (isinstance(v, list) and all(_num(x) and 0 < x <= 1 for x in v) and (len(v) > 0 or not nonempty)
+                and (not sum_le_one or sum(v) <= 1))
+
+    rules = {
+        "deme": {"description": lambda v: isinstance(v, str), "start_time": lambda v: _num(v) and v > 0, "ancestors": names, "proportions": props},
+        "migration": {"rate": lambda v: _num(v) and 0 <= v <= 1, "start_time": lambda v: _num(v) and v >= 0,
+                      "end_time": lambda v: _num(v) and 0 <= v < math.inf, "source": _ident, "dest": _ident, "demes": names},
+        "pulse": {"sources": lambda v: names(v, True), "dest": _ident, "time": lambda v: _num(v) and 0 < v < math.inf,
+                  "proportions": lambda v: props(v, True, True)},
+        "epoch": {"end_time": lambda v: _num(v) and 0 <= v < math.inf, "start_size": lambda v: _num(v) and 0 < v < math.inf,
+                  "end_size": lambda v: _num(v) and 0 < v < math.inf, "selfing_rate": lambda v: _num(v) and 0 <= v <= 1,
+                  "cloning_rate": lambda v: _num(v) and 0 <= v <= 1, "size_function": lambda v: isinstance(v, str)},
+    }
+
+    def check(sec, dct):
+        for k, v in dct.items():
+            if k not in rules[sec] or not rules[sec][k](v):
+                return False
+        return True
+
+    for sec, dct in doc.get("defaults", {}).items():
+        if not check(sec, dct):
+            return False
+    for dm in doc["demes"]:
+        for sec, dct in dm.get("defaults", {}).items():
+            if sec != "epoch" or not check(sec, dct):
+                return False
+    # a default that IS used changes the model: the sweep's base demes spell every field out, but a
+    # migration/pulse default never applies (no migrations/pulses), and deme/epoch defaults are shadowed
+    return True
+
+
 def run(ctx):
     n = 400 if ctx.tier == "quick" else 5000
+    defaults_sweep(ctx)
     done = 0
     while done < n and ctx.time_left() > 10:
         models = gen_models(ctx, min(100, n - done), max_demes=5 if ctx.tier == "quick" else 8)
